@@ -175,9 +175,16 @@ class OpTables:
         return sorted(tags), sorted(errs)
 
     def static_type(self, op, lq, rq):
-        fs = [f for f in self.prog.fns.values() if f.name == "cast_binary_op_q" and f.crate == "rusty_linter"]
+        # the checker's operator typing, found by what it is: the function of the checker that takes two type qualifiers
+        # and an operator and answers with an optional qualifier (cast_binary_op_q today)
+        fs = getattr(self, "_static_fn", None)
+        if fs is None:
+            fs = [f for f in self.prog.fns.values() if f.crate == "rusty_linter" and f.kind == "fn" and f.argc == 3
+                  and "Option<" in f.body.locals[0]["ty"] and "TypeQualifier" in f.body.locals[0]["ty"]
+                  and sorted(l["ty"].split("::")[-1] for l in f.body.locals[1:4]) == ["Operator", "TypeQualifier", "TypeQualifier"]]
+            self._static_fn = fs
         if len(fs) != 1:
-            raise CheckError("anchor cast_binary_op_q")
+            raise CheckError("anchor: the checker's typing of a binary operator on two qualifiers (%d candidates)" % len(fs))
         rs = self.eng.summary(fs[0], (tf.Tag(TQ, lq), tf.Tag(TQ, rq), tf.Tag(OP, op)))
         out = set()
         for x in rs:
